@@ -176,6 +176,7 @@ type probeC struct {
 	calls    []time.Time
 	pending  []bool // a reconcile event was pending at (re)start
 	resetAt  int    // invocation index at which the controller calls ResetRestartBackoff (-1 never)
+	tracking bool   // the controller uses the optional output-tracking API in every reconcile
 }
 
 func (p *probeC) Name() string                 { return "plain" }
@@ -193,6 +194,9 @@ func (p *probeC) Run(ctx context.Context, r controller.Runtime, _ *zap.Logger) e
 	p.pending = append(p.pending, got)
 	if n == p.resetAt {
 		r.ResetRestartBackoff()
+	}
+	if p.tracking {
+		r.StartTrackingOutputs() // a fault below happens between StartTrackingOutputs and CleanupOutputs
 	}
 	outcome := oOK
 	if n < len(p.script) {
@@ -218,7 +222,7 @@ func H_ControllerRestarts() {
 	ctx, cancel := context.WithCancel(context.Background())
 	st := state.WrapCore(namespaced.NewState(inmem.Build))
 	db, _ := dependency.NewDatabase()
-	p := &probeC{resetAt: verif.Choose("resetAt", n+1) - 1}
+	p := &probeC{resetAt: verif.Choose("resetAt", n+1) - 1, tracking: verif.Choose("tracksOutputs", 2) == 1}
 	for i := 0; i < n; i++ {
 		o := oOK
 		switch verif.Choose("outcome", 3) {
